@@ -30,7 +30,17 @@ func (w *world) callBuiltin(caller *frame, fn *ssa.Builtin, args []value) value 
 		if isStringVal(src) {
 			src = strBytes(src)
 		}
-		return copy(args[0].([]value), src.([]value))
+		dst := args[0].([]value)
+		if w.inInit == 0 {
+			n := len(dst)
+			if l := len(src.([]value)); l < n {
+				n = l
+			}
+			for i := 0; i < n; i++ {
+				w.undo = append(w.undo, undoRec{&dst[i], dst[i]})
+			}
+		}
+		return copy(dst, src.([]value))
 
 	case "close": // close(chan T)
 		w.chanClose(args[0])
@@ -39,6 +49,7 @@ func (w *world) callBuiltin(caller *frame, fn *ssa.Builtin, args []value) value 
 	case "delete": // delete(map[K]value, K)
 		switch m := args[0].(type) {
 		case *omap:
+			w.logMap(m)
 			m.delete(w, args[1])
 		default:
 			panic(fmt.Sprintf("illegal map type: %T", m))
@@ -49,6 +60,7 @@ func (w *world) callBuiltin(caller *frame, fn *ssa.Builtin, args []value) value 
 		switch m := args[0].(type) {
 		case *omap:
 			if m != nil {
+				w.logMap(m)
 				m.entries = nil
 				m.index = make(map[any]int)
 				m.symIdx = nil
@@ -60,6 +72,7 @@ func (w *world) callBuiltin(caller *frame, fn *ssa.Builtin, args []value) value 
 				elt = sl.Elem()
 			}
 			for i := range m {
+				w.logWrite(&m[i])
 				m[i] = zero(elt)
 			}
 		}
@@ -190,7 +203,11 @@ func (w *world) callBuiltin(caller *frame, fn *ssa.Builtin, args []value) value 
 		if sl := w.sliceFromData(p, int(n)); sl != nil {
 			return mkString(sl)
 		}
-		panic(unsupported("unsafe.String on untracked pointer"))
+		chain := ""
+		for c, k := caller, 0; c != nil && k < 5; c, k = c.caller, k+1 {
+			chain += " <- " + c.fn.String()
+		}
+		panic(unsupported("unsafe.String on untracked pointer" + chain))
 
 	case "SliceData":
 		sl := args[0].([]value)
